@@ -60,12 +60,21 @@ def main():
     name = sys.argv[1]
     strats = sys.argv[2].split(",")
     out = {"dumps": {}, "orders": {}}
-    for spec in batch(name):
+    if name.startswith("one:"):        # a single network in a process of its own
+        specs = [json.loads(name[4:])]
+    elif name.endswith(":rev"):        # the batch in reverse order
+        specs = list(reversed(batch(name[:-4])))
+    else:
+        specs = batch(name)
+    for spec in specs:
         net = U.resolve(spec)
         if net.n <= 4:
             out["orders"][",".join(sorted(net.names))] = list(set(net.names))
         for st in strats:
-            d = full_dump(net, st)
+            try:
+                d = full_dump(net, st)
+            except Exception as e:  # a result that depends on the process history may also be an exception
+                d = f"EXC {type(e).__name__}: {e}"
             out["dumps"][json.dumps([list(spec), st])] = hashlib.sha1(d.encode()).hexdigest()
     print("ENVDUMP " + json.dumps(out))
 
